@@ -534,10 +534,14 @@ class Scene(Geometry3D):
         """
         # get the area of every geometry that has an area property
         areas = {n: g.area for n, g in self.geometry.items() if hasattr(g, "area")}
-        # sum the area including instancing
-        return sum(
-            (areas.get(self.graph[n][1], 0.0) for n in self.graph.nodes_geometry), 0.0
-        )
+        # sum the area including instancing and the scale of each instance
+        total = 0.0
+        for n in self.graph.nodes_geometry:
+            matrix, name = self.graph[n]
+            if name in areas:
+                # a similarity transform scales area by the scale squared
+                total += areas[name] * abs(np.linalg.det(matrix[:3, :3])) ** (2.0 / 3.0)
+        return total
 
     @caching.cache_decorator
     def volume(self) -> float64:
@@ -552,10 +556,14 @@ class Scene(Geometry3D):
         """
         # get the area of every geometry that has a volume attribute
         volume = {n: g.volume for n, g in self.geometry.items() if hasattr(g, "area")}
-        # sum the area including instancing
-        return sum(
-            (volume.get(self.graph[n][1], 0.0) for n in self.graph.nodes_geometry), 0.0
-        )
+        # sum the volume including instancing and the scale of each instance
+        total = 0.0
+        for n in self.graph.nodes_geometry:
+            matrix, name = self.graph[n]
+            if name in volume:
+                # a transform scales volume by its determinant
+                total += volume[name] * abs(np.linalg.det(matrix[:3, :3]))
+        return total
 
     @caching.cache_decorator
     def triangles(self) -> NDArray[float64]:
